@@ -697,6 +697,23 @@ func (v fixedVersion) InConstraints(c string) (bool, error) {
 	return con.Check(ver), nil
 }
 
+// mutVersion is version.Operations for a running Crossplane version that can be
+// changed between reconciles (Crossplane is upgraded or downgraded).
+type mutVersion struct {
+	mu sync.Mutex
+	v  string
+}
+
+func (m *mutVersion) set(v string) { m.mu.Lock(); m.v = v; m.mu.Unlock() }
+func (m *mutVersion) cur() fixedVersion {
+	m.mu.Lock()
+	defer m.mu.Unlock()
+	return fixedVersion(m.v)
+}
+func (m *mutVersion) GetVersionString() string             { return m.cur().GetVersionString() }
+func (m *mutVersion) GetSemVer() (*semver.Version, error)  { return m.cur().GetSemVer() }
+func (m *mutVersion) InConstraints(c string) (bool, error) { return m.cur().InConstraints(c) }
+
 var (
 	metaScheme *runtime.Scheme
 	objScheme  *runtime.Scheme
@@ -720,6 +737,7 @@ type env struct {
 	fs      *faultFs
 	cache   *xpkg.FsPackageCache
 	rcache  *recCache
+	ver     *mutVersion
 	fetcher *fetcher
 	est     *recEstablisher
 	deps    *recDeps
@@ -757,6 +775,7 @@ func newEnv(verification bool) *env {
 		e.flags.Enable(features.EnableAlphaSignatureVerification)
 	}
 	e.est.dead = e.fs.isDead
+	e.ver = &mutVersion{v: runningVersion}
 	e.cache = xpkg.NewFsPackageCache(cacheDir, e.fs)
 	e.rcache = &recCache{PackageCache: e.cache}
 	_ = e.fs.Fs.MkdirAll(cacheDir, 0o755)
@@ -774,7 +793,7 @@ func newEnv(verification bool) *env {
 			revision.WithParserBackend(revision.NewImageBackend(e.fetcher, revision.WithDefaultRegistry("xpkg.example.org"))),
 			revision.WithConfigStore(xpkg.NewImageConfigStore(c, namespace)),
 			revision.WithLinter(linterFor(typ)),
-			revision.WithVersioner(fixedVersion(runningVersion)),
+			revision.WithVersioner(e.ver),
 			revision.WithNamespace(namespace),
 			revision.WithServiceAccount("crossplane"),
 			revision.WithFeatureFlags(e.flags),
